@@ -99,8 +99,7 @@
    "ForEach counter >= 0 in Debug", "RegisterUpvalue captures an existing variable".
    step_pre3 (C04VmProofs7) = vm_inv (the structural invariant, PRESERVED by every instruction:
    step_preserves) + instruction pointer at an instruction start of a code_ok program (follows from C10:
-   C04VmLink.wellformed_code_ok) + side (acyclic heap, natives_simple, the two per-opcode conditions, CallNative
-   not of __min / __max / __sort).
+   C04VmLink.wellformed_code_ok) + side (acyclic heap, natives_simple, the two per-opcode conditions).
 
    site                                              final status
    step `_ => SStop AUB` (invalid opcode)             PROVED unreachable (code_ok: opcode <= 46)
@@ -133,8 +132,9 @@
    run_function `reenter` RStop                       excluded by the HYPOTHESIS reenter_ok (contract of the nested
                                                       run: no abort, ninv again, no object dies); NOT discharged by
                                                       induction over the nesting depth
-   native_minmax / native_sorted / minmax_go / sort_keys NStop (incl. ACrash of vcmp, snapshot)
-                                                      NOT COVERED (__min, __max, __sort: sd_native / covered_native)
+   native_minmax / native_sorted / minmax_go / sort_keys NStop (incl. ACrash of vcmp, snapshot, make_row,
+        stable_sort, insert_all)                      PROVED unreachable (C04VmProofs6b.call_native_ok0), under
+                                                      reenter_ok for the key-function callbacks
    loop `O => RStop ADiverge`                         PROVED (loop_no_abort: fuel >= st_rem, given re_paid; run_no_abort
                                                       uses VmProofs.run_at_paid)
    run_at `O => RStop ADiverge` (depth 130)           inside reenter_ok (hypothesis)
@@ -142,8 +142,8 @@
 
    Preservation of the non-structural condition heap_acyclic: every instruction except SetProperty, AppendTable
    and the natives keeps it (C04VmProofs9.step_keeps_acyclic); those two keep it when key and value are ranked
-   below the instance (C04VmProofs8.set_property_ranked, append_table_ranked); the covered natives keep it
-   (C04VmProofs6.call_native_ok).  The loop-level theorems take "every dispatched instruction meets [side]" as a
+   below the instance (C04VmProofs8.set_property_ranked, append_table_ranked); the natives other than __min /
+   __max / __sort keep it (C04VmProofs6.call_native_ok); for those three it is not shown.  The loop-level theorems take "every dispatched instruction meets [side]" as a
    hypothesis (sides_hold). *)
 From Coq Require Import NArith ZArith List Lia Bool.
 From Cao Require Import ListUtil Bits Stacks Vm VmProofs.
